@@ -597,6 +597,20 @@ func (customEngine) Gen(r *rand.Rand, idx int, tier string) any {
 			}
 		}
 	}
+	// resources of different kinds are free to carry the same name (a VirtualService and a DestinationRule "web")
+	if len(in.Refs) >= 2 && chance(r, 45) {
+		for i := 1; i < len(in.Refs); i++ {
+			clash := false
+			for j := 0; j < i; j++ {
+				if in.Refs[j].Name == in.Refs[0].Name && in.Refs[i].Kind == in.Refs[j].Kind && in.Refs[i].APIVersion == in.Refs[j].APIVersion {
+					clash = true
+				}
+			}
+			if !clash {
+				in.Refs[i].Name = in.Refs[0].Name
+			}
+		}
+	}
 	ns := 1 + r.Intn(3)
 	for i := 0; i < ns; i++ {
 		s := CNStrategy{}
